@@ -4,6 +4,7 @@ import (
 	"fmt"
 	"math"
 	"reflect"
+	"strings"
 
 	"pgregory.net/rapid"
 
@@ -30,11 +31,15 @@ type ValCfg struct {
 	Finite    bool
 	NoBigUint bool // unsigned <= MaxInt64
 	Budget    int
+	// DynFolders: an interface{} may also hold pool types with custom folders
+	// and named containers (fold-side checks only)
+	DynFolders bool
 }
 
 type valGen struct {
-	cfg    ValCfg
-	budget int
+	cfg         ValCfg
+	budget      int
+	inlineIface bool // the next interface value drawn is an inlined field
 }
 
 // DrawValue draws a value for the type.
@@ -73,12 +78,51 @@ func uintMax(k reflect.Kind) uint64 {
 // dynamic types an interface{} value may hold
 var dynKinds = []string{"nil", "bool", "string", "int", "int8", "int64", "uint8", "uint64", "float32", "float64", "slice_iface", "map_iface", "slice_int", "map_string", "struct", "ptr_int", "slice_string", "bytes"}
 
+// dynamic pool types (fold side): implemented folders — incl. named containers
+// of builtin elements, which the library also knows a conversion fast path for —
+// the registered folder and plain named containers
+var dynPool = []string{"FolderObj", "FolderPtr", "FolderScalar", "RegT", "FTags", "FCounts", "FAnyMap", "FAnyList", "NMapInt", "NMapAny", "NSliceStr", "NSliceAny", "NBytes", "ZeroVal"}
+
+// dynamic types that fold to an object (what an inlined interface must hold)
+var dynObjKinds = []string{"map_iface", "map_string", "struct", "map_iface", "struct", "pool:FolderObj", "pool:FCounts", "pool:NMapAny", "ptr_struct"}
+
 func (g *valGen) dynType(t *rapid.T, depth int) *TypeDesc {
 	k := rapid.SampledFrom(dynKinds).Draw(t, "dyn")
+	if g.cfg.DynFolders && rapid.IntRange(0, 3).Draw(t, "dynp") == 0 {
+		k = "pool:" + rapid.SampledFrom(dynPool).Draw(t, "dynpool")
+	}
+	return g.dynTypeOf(k, depth)
+}
+
+func (g *valGen) dynObjType(t *rapid.T, depth int) *TypeDesc {
+	k := rapid.SampledFrom(dynObjKinds).Draw(t, "dyno")
+	if strings.HasPrefix(k, "pool:") && !g.cfg.DynFolders {
+		k = "map_iface"
+	}
+	if g.budget <= 0 || depth > 4 {
+		k = "map_string"
+	}
+	return g.dynTypeOf(k, 0)
+}
+
+func (g *valGen) dynTypeOf(k string, depth int) *TypeDesc {
 	if g.budget <= 0 || depth > 4 {
 		k = "int"
 	}
+	if strings.HasPrefix(k, "pool:") {
+		if strings.HasSuffix(k, "FolderPtr") || strings.HasSuffix(k, "RegT") {
+			// pointer receiver / registered for the pointer type
+			return &TypeDesc{Kind: "ptr", Elem: &TypeDesc{Kind: "pool", Pool: k[5:]}}
+		}
+		return &TypeDesc{Kind: "pool", Pool: k[5:]}
+	}
+	dynStruct := TypeDesc{Kind: "struct", Fields: []FieldDesc{
+		{Name: "P", Type: TypeDesc{Kind: "int"}},
+		{Name: "Q", Tag: `struct:"q,omitempty"`, Type: TypeDesc{Kind: "string"}},
+	}}
 	switch k {
+	case "ptr_struct":
+		return &TypeDesc{Kind: "ptr", Elem: &dynStruct}
 	case "nil":
 		return nil
 	case "slice_iface":
@@ -96,10 +140,7 @@ func (g *valGen) dynType(t *rapid.T, depth int) *TypeDesc {
 	case "ptr_int":
 		return &TypeDesc{Kind: "ptr", Elem: &TypeDesc{Kind: "int"}}
 	case "struct":
-		return &TypeDesc{Kind: "struct", Fields: []FieldDesc{
-			{Name: "P", Type: TypeDesc{Kind: "int"}},
-			{Name: "Q", Tag: `struct:"q,omitempty"`, Type: TypeDesc{Kind: "string"}},
-		}}
+		return &dynStruct
 	}
 	return &TypeDesc{Kind: k}
 }
@@ -139,7 +180,13 @@ func (g *valGen) val(t *rapid.T, typ reflect.Type, depth int) GoVal {
 		v := g.val(t, typ.Elem(), depth+1)
 		return GoVal{Ptr: &v}
 	case reflect.Interface:
-		dt := g.dynType(t, depth)
+		var dt *TypeDesc
+		if g.inlineIface {
+			g.inlineIface = false
+			dt = g.dynObjType(t, depth)
+		} else {
+			dt = g.dynType(t, depth)
+		}
 		if dt == nil {
 			return GoVal{Nil: true}
 		}
@@ -201,7 +248,14 @@ func (g *valGen) val(t *rapid.T, typ reflect.Type, depth int) GoVal {
 				out.Elems = append(out.Elems, GoVal{Nil: true})
 				continue
 			}
+			// an inlined interface must hold something that folds to an object:
+			// make that the common case (anything else is a refusal)
+			g.inlineIface = false
+			if f := typ.Field(i); f.Type.Kind() == reflect.Interface && ParseTag(f.Tag.Get("struct")).Inline {
+				g.inlineIface = rapid.IntRange(0, 4).Draw(t, "inlobj") > 0
+			}
 			out.Elems = append(out.Elems, g.val(t, typ.Field(i).Type, depth+1))
+			g.inlineIface = false
 		}
 		return out
 	}
